@@ -126,6 +126,8 @@ def gen_design(r, cfg):
                     for _ in range(r.choice([0, 0, 1, 2])):
                         pk = _ident(r, set(), 3)
                         val = r.choice(["8'h0F", "hello world", "", "a(b)", 3, 0, -12, 99999999999, True, False,
+                                        # white space at the edges of a string is part of the value
+                                        " 8'h00", "ab  ", " ",
                                         # long strings as tools write them (paths, wide INIT values, build stamps)
                                         "C:/Users/someone/Documents/project_x/sources/very/long/path/to/a_file.v",
                                         "256'h" + "0" * 60 + "FF00", "Built on 'Thu Dec  6 23:38:27 MST 2018' by tool (x)"])
